@@ -31,7 +31,9 @@ class SDag(Sym):
         self.return_uxns = SRet()
         self._maxc = C.fresh("dag_max_concurrency", I)
         self.max_concurrency = SInt(self._maxc)
-        self._max_concurrency = SInt(C.fresh("stale_max_concurrency", I))  # value saved by __post_init__: NOT the limit
+        stale = C.fresh("stale_max_concurrency", I)
+        C.assume(stale >= 1)  # validated by __post_init__ when it was saved; it is NOT the current limit
+        self._max_concurrency = SInt(stale)
         self.graph_ids = SDiGraphEx(name="dag.graph_ids")
         self.graph_ids.owner = "dag"
         self.qualname = "dag"
